@@ -67,7 +67,9 @@ func jText(v any) string {
 
 var (
 	c06Keys    = []string{"a", "b", "level", "status", "msgid", "req.path", "x-y", "with space", "Ünï", "k9", "_u", "9lead", "a/b", "q\"uote", "nested", "list", "n", "__typename", "__v", "--x"}
-	c06Strings = []string{"", "v", "hello world", "with \"quotes\"", "back\\slash", "new\nline", "tab\there", "a=b", "ünïcödé 世界", "{\"not\":\"parsed\"}", "[1,2]", " lead", "trail ", "null", "true", "12", " ", "\x7f", "<b>&amp;</b>"}
+	c06Strings = []string{"", "v", "hello world", "with \"quotes\"", "back\\slash", "new\nline", "tab\there", "a=b", "ünïcödé 世界", "{\"not\":\"parsed\"}", "[1,2]", " lead", "trail ", "null", "true", "12", " ", "\x7f", "<b>&amp;</b>",
+		// values that begin and end with what looks like syntax: the quotes, brackets, back quotes are part of the value
+		"\"disk full\"", "\"\"", "\"", "\"a\" is not \"b\"", "'single'", "`raw`", "[bracketed]", "(paren)", "{brace}", "\\\"", "ends in backslash\\", "\"x", "x\""}
 	c06Numbers = []string{"0", "1", "-1", "42", "200", "1.5", "-0.25", "1e3", "1E+2", "5e-1", "-0", "0.0", "123456789012", "9223372036854775807", "-9223372036854775808", "9007199254740993", "1700000000123456789", "-9007199254740993",
 		"9223372036854775808", "-9223372036854775809", "18446744073709551616", "1.0", "3.14159", "100000000000000000000"}
 )
@@ -681,6 +683,23 @@ func runC06(r *vk.Run) {
 			line.WriteString(v)
 			if name != "_" {
 				expect[name] = v
+			}
+		}
+		// a pattern may end in a literal, and it is not anchored at the end of the line: the last capture then
+		// extends to the FIRST occurrence of that literal, whatever follows (also the literal again)
+		closing := ""
+		if rng.Chance(1, 3) {
+			closing = vk.Pick(rng, []string{"]", "\"", ":", " end", ")", ";", "] "})
+			last := fmt.Sprintf("f%d", n-1)
+			if v, has := expect[last]; has && strings.Contains(v, closing) {
+				c.Count("excluded_ambiguous_pattern", 1)
+				return
+			}
+			pat.WriteString(closing)
+			line.WriteString(closing)
+			if rng.Chance(2, 3) {
+				line.WriteString(vk.Pick(rng, []string{" tail", " more" + closing + " again", closing, closing + closing, " x" + closing, " \"GET /items[1] HTTP/1.1\" 200: ok (cached); end"}))
+				c.Count("pattern_lines_continuing_after_closing_literal", 1)
 			}
 		}
 		ok := true
